@@ -15,6 +15,7 @@
    non-positive argument and panics).  [attempt++] is modelled without the int64
    wrap (2^63 consecutive failures). *)
 From Coq Require Import List ZArith Bool.
+From XV Require Import Gen.Generated.
 Import ListNotations.
 Open Scope Z_scope.
 
@@ -26,11 +27,14 @@ Record backoff := mkBackoff {
   attempt : Z        (* lastDuration is never read or written by the code: omitted *)
 }.
 
-(* const ( defaultBase = 20; defaultFactor = 2; defaultCap = 180000 ) -- compared with
-   the constants regenerated from the code (Gen/Generated.v) by C19_defaults. *)
-Definition dflt_base : Z := 20.
-Definition dflt_factor : Z := 2.
-Definition dflt_cap : Z := 180000.
+(* const ( defaultBase; defaultFactor; defaultCap ): the model follows the constants
+   regenerated from the code on every run (Gen/Generated.v, written by harness/gen.go
+   from VerifBackoffDefaults()).  What the property needs of them -- positive, within
+   the bound, default cap at most three minutes -- is Proofs/BackoffP.v defaults_ok,
+   re-proved against the live constants on every run. *)
+Definition dflt_base : Z := default_base.
+Definition dflt_factor : Z := default_factor.
+Definition dflt_cap : Z := default_cap.
 
 (* setDefault: each zero field takes its default (it writes the fields) *)
 Definition set_default (b : backoff) : backoff :=
